@@ -152,6 +152,10 @@ def jobs(tier):
         add(C=2, N=2, SUSP=1, lock=True, pause=0, K=4, fl=fl)
         add(C=2, N=2, SUSP=0, lock=False, pause=1, K=3, fl=fl)
         add(C=2, N=(1 if q else 2), SUSP=1, lock=True, pause=1, K=4, fl=fl)
+    # retention ("an item is retained only until the slowest live child has yielded it"): the
+    # exact weak-reference oracle of C20's tee harness, for sequential progress patterns
+    for closeat in (3, 8):
+        J.append({"module": "c20", "fn": "h_tee", "part": {"L": 8, "closeat": closeat}, "timeout": T})
     add(C=2, N=2, SUSP=1, lock=True, pause=0, fl="adual")
     add(C=2, N=1, SUSP=2, lock=True, pause=1, fl="adual")
     if not q:
@@ -166,7 +170,7 @@ BOUNDS = {
     "quick": "all interleavings (symbolic choice vector, every suspension point a scheduling point) of 2..3 consumers; source length 0..2, 0..2 suspensions per source item, consumer pause 0..1, lock present (incl. suspending acquire and suspending release) or absent (non-suspending sources only), child 0 closed after j<=2 items, last consumer cancelled at its k-th suspension (k<=4); sources class-based and async generators",
     "thorough": "additionally 4 consumers with length 1, 2 consumers with length 3",
 }
-OUTSIDE = ["4 consumers with length > 1, length 4, 3 consumers with length 2 and pause 1 (2*10^5 schedules)", "retention (weak references) is measured in C20", "more than one early close / cancellation per run"]
+OUTSIDE = ["retention is measured for sequential progress patterns of two children only (shared with C20)", "4 consumers with length > 1, length 4, 3 consumers with length 2 and pause 1 (2*10^5 schedules)", "more than one early close / cancellation per run"]
 NONTRIVIAL_RULE = ">=1 source item and >=1 context switch in the schedule"
 ASSUMPTIONS = ["scheduler: every harness suspension is a scheduling point; a task blocked on a held lock is not runnable; all waiters re-contend on release (covers FIFO and barging locks)", "running out of the 28 choice ints is an unwinding failure (exit 2), never a pass"]
 
